@@ -337,7 +337,7 @@ func Select(site string, hasDefault bool, cases ...Case) *Res {
 		select {} // a select over nil channels only blocks for ever, as in the original
 	}
 	c, rv, ok := reflect.Select(all)
-	if th != nil {
+	if th != nil && cur == s { // the scheduler may have been switched off (teardown) while this goroutine was blocked
 		park(s, th, site+"+", 0)
 	}
 
